@@ -442,6 +442,7 @@ func (e *Engine) verifyFunc(c *Contract) *VC {
 	fi := e.funcByKey[c.Key]
 	vc := e.newVC(shortKey(c.Key))
 	vc.wrapping = c.Wrapping
+	vc.prune = c.Prune
 	vc.noSafety = c.NoSafety
 	if fi == nil {
 		vc.failed = fmt.Errorf("no body for %s", c.Key)
